@@ -354,6 +354,10 @@ where
             self.storage()
                 .replace_group_relays(&mls_group_id, welcome_preview.nostr_group_data.relays)
                 .map_err(|e| Error::Group(e.to_string()))?;
+
+            // The stored record may have been written by another (earlier or later) invitation
+            // to the same group: take epoch and group data from the MLS state actually joined.
+            self.sync_group_metadata_from_mls(&mls_group_id)?;
         }
 
         Ok(())
